@@ -92,7 +92,8 @@ class LC:
         for nm, vals in asg.items():
             if len(vals) == 1 and self._is_dict_test(vals[0]):
                 self.dictflags.add(nm)
-        self.local_defs = {st.name: st for st in fn.node.body if isinstance(st, ast.FunctionDef)}
+        self.local_defs = {st.name: st for st in astx.walk_stmts(fn.node.body) if isinstance(st, ast.FunctionDef)}
+        self._helpers = {}
         self.loops = self._table_loops()
 
     # ---------------------------------------------------------------- small recognisers
@@ -324,7 +325,78 @@ class LC:
 
     # ---------------------------------------------------------------- sinks
     def set_val_calls(self, node):
-        return [c for c in node.calls() if astx.callee_attr(c) == 'set_val' and self.is_model(astx.receiver(c))]
+        out = [c for c in node.calls() if astx.callee_attr(c) == 'set_val' and self.is_model(astx.receiver(c))]
+        # calls of a local helper that stores its (name, value) arguments with model.set_val are stores too
+        for c in node.calls():
+            if isinstance(c.func, ast.Name) and self.store_helper(c.func.id) is not None and \
+                    self.store_helper(c.func.id)['status'] != 'drops':
+                out.append(c)
+        return out
+
+    def store_helper(self, name):
+        """Summary of a local `def h(name, value)` whose body is `model.set_val(name, value | scatter(value))`
+        on every path: dict(status 'ok'|'unsure', params, variants, scatter_io, scatter_col) or None."""
+        if name in self._helpers:
+            return self._helpers[name]
+        d = self.local_defs.get(name)
+        info = None
+        if d is not None and any(astx.callee_attr(c) == 'set_val' and self.is_model(astx.receiver(c))
+                                 for c in astx.calls(d)):
+            a = d.args
+            params = [x.arg for x in a.args]
+            info = dict(status='unsure', params=params, variants=set(), scatter_io=None, scatter_col=None,
+                        why='helper shape not recognised', node=d)
+            if len(params) == 2 and not (a.vararg or a.kwarg or a.kwonlyargs or a.defaults):
+                pn, pv = params
+                g = cfgm.build(d)
+                rd = cfgm.ReachingDefs(g)
+                stores, okay = [], True
+                for n in g.nodes:
+                    if n.kind in ('entry', 'exit', 'raise', 'join'):
+                        continue
+                    for c in n.calls():
+                        if not (astx.callee_attr(c) == 'set_val' and self.is_model(astx.receiver(c))):
+                            continue
+                        stores.append(n)
+                        nm, v = astx.arg(c, 0, 'name'), astx.arg(c, 1, 'val')
+                        if len(c.args) + len(c.keywords) != 2 or not (isinstance(nm, ast.Name) and nm.id == pn):
+                            okay = False
+                            continue
+                        if isinstance(v, ast.Name) and v.id != pv:
+                            v = rd.value(n, v.id) or v
+                        if isinstance(v, ast.Name) and v.id == pv and rd.defs(n, pv) == {g.entry}:
+                            info['variants'].add('plain')
+                        elif isinstance(v, ast.Call) and astx.callee_attr(v) == 'scatter_dist_to_local' and \
+                                len(v.args) == 3 and isinstance(v.args[0], ast.Name) and v.args[0].id == pv:
+                            comm, sizes = v.args[1], v.args[2]
+                            if isinstance(sizes, ast.Name):
+                                sizes = rd.value(n, sizes.id)
+                            shape = isinstance(sizes, ast.Subscript) and isinstance(sizes.value, ast.Subscript) and \
+                                isinstance(sizes.value.value, ast.Attribute) and \
+                                sizes.value.value.attr == '_var_sizes' and self.is_model(sizes.value.value.value) and \
+                                isinstance(sizes.slice, ast.Tuple) and len(sizes.slice.elts) == 2 and \
+                                isinstance(sizes.slice.elts[1], ast.Subscript) and \
+                                isinstance(sizes.slice.elts[1].slice, ast.Name)
+                            if shape and isinstance(comm, ast.Attribute) and comm.attr == 'comm' and \
+                                    self.is_model(comm.value):
+                                info['variants'].add('scatter')
+                                info['scatter_io'] = astx.const_str(sizes.value.slice)
+                                info['scatter_col'] = sizes.slice.elts[1].slice.id
+                            else:
+                                okay = False
+                        else:
+                            okay = False
+                rebinds = [n for n in g.nodes if n.kind == 'stmt' and
+                           any(astx.path(t) in (pn, pv) for t in astx.assigned_targets(n.ast))]
+                if okay and stores and not rebinds:
+                    w = g.path([g.entry], [g.exit], avoid=stores, labels=cfgm.noexc)
+                    if w is None:
+                        info['status'] = 'ok'
+                    else:
+                        info['status'] = 'drops'
+                        info['why'] = f'helper {name} can return without set_val: {g.fmt_path(w)}'
+        self._helpers[name] = info
+        return info
 
     def set_val_nodes(self, loop):
         body = set(self.g.body_nodes(loop.stmt))
@@ -837,8 +909,13 @@ class Fetch:
 class Site:
     def __init__(self, lc, loop, node, call):
         self.lc, self.loop, self.node, self.call = lc, loop, node, call
-        self.name = astx.arg(call, 0, 'name')
-        self.val = astx.arg(call, 1, 'val')
+        self.helper = lc.store_helper(call.func.id) if isinstance(call.func, ast.Name) else None
+        if self.helper is not None:
+            pn, pv = (self.helper['params'] + [None, None])[:2]
+            self.name, self.val = astx.arg(call, 0, pn), astx.arg(call, 1, pv)
+        else:
+            self.name = astx.arg(call, 0, 'name')
+            self.val = astx.arg(call, 1, 'val')
         self.scatter = None
         self.variants = set()    # 'plain' / 'scatter': ways the stored value reaches this call
         self.problem = None      # (status, why, key)
@@ -1017,8 +1094,21 @@ def taint(repo, out):
                     out.unsure(fn, st, why)
                 continue
             c = s.call
-            extra = [k for k in c.keywords if k.arg not in ('name', 'val')]
+            extra = [k for k in c.keywords if k.arg not in (tuple(s.helper['params']) if s.helper else ('name', 'val'))]
             verdict = None
+            if s.helper is not None:
+                h = s.helper
+                if h['status'] != 'ok':
+                    out.unsure(fn, st, f"local helper {c.func.id}: {h['why']}")
+                    continue
+                s.variants = set(h['variants'])
+                if 'scatter' in h['variants']:
+                    if h['scatter_io'] != loop.io:
+                        verdict = ('bad', f"helper {c.func.id} scatters a distributed {loop.io} value with the sizes of "
+                                   f"_var_sizes[{h['scatter_io']!r}]", 'scatter-sizes')
+                    elif h['scatter_col'] != h['params'][0]:
+                        verdict = ('bad', f"helper {c.func.id} scatters with the sizes of variable {h['scatter_col']}, "
+                                   f"not of the name it stores ({h['params'][0]})", 'scatter-sizes')
             if len(c.args) > 2:
                 extra = extra + [None]
             for k in extra:
@@ -1960,6 +2050,38 @@ _OUT_TEMP_VAL = _OUT_BLOCK.replace(
 assert _OUT_TEMP_VAL != _OUT_BLOCK and 'recorded = outputs[name]' in _OUT_TEMP_VAL and 'if not (model.comm.size' in _OUT_TEMP_VAL
 
 
+_OUT_HELPER = '''        if outputs:
+            def set_output(abs_out, val):
+                # set one absolute output, scattering the recorded value if it is distributed
+                if model.comm.size > 1 and resolver.flags(abs_out) & DISTRIBUTED:
+                    sizes = model._var_sizes['output'][:, abs2idx[abs_out]]
+                    model.set_val(abs_out, scatter_dist_to_local(val, model.comm, sizes))
+                else:
+                    model.set_val(abs_out, val)
+
+            for name in outputs:
+                if set_later(name):
+                    continue
+
+                if not resolver.is_prom(name):
+                    issue_warning(f"{model.msginfo}: Output variable, '{name}', recorded "
+                                  "in the case is not found in the model.")
+                    continue
+
+                recorded = outputs[name]
+                val = recorded['val'] if case_is_dict else recorded
+
+                if resolver.is_prom(name, 'output'):
+                    abs_names = resolver.absnames(name, 'output')
+                else:
+                    abs_names = (resolver.source(name),)
+
+                for abs_name in abs_names:
+                    if not set_later(abs_name):
+                        set_output(abs_name, val)
+'''
+
+
 def _shape_items():
     """Self-test items that quote whole blocks, for the current and for the repaired shape."""
     items = []
@@ -2187,6 +2309,18 @@ selftest(
            'C19.taint'),
     Mutant('temp-value-wrong-table', PRB, _OUT_BLOCK,
            _OUT_TEMP_VAL.replace("recorded = outputs[name]", "recorded = inputs[name]"), 'C19.taint'),
+    # ---- fourth robustness round: store extracted into a local helper
+    Twin('twin-outputs-store-helper', PRB, _OUT_BLOCK, _OUT_HELPER),
+    Mutant('helper-scatter-wrong-io', PRB, _OUT_BLOCK, _OUT_HELPER.replace("_var_sizes['output']", "_var_sizes['input']"), 'C19.taint'),
+    Mutant('helper-stores-only-distributed', PRB, _OUT_BLOCK,
+           _OUT_HELPER.replace("                else:\n                    model.set_val(abs_out, val)\n", "                else:\n                    pass\n"),
+           'C19.nodrop'),
+    Mutant('helper-call-args-swapped', PRB, _OUT_BLOCK, _OUT_HELPER.replace('set_output(abs_name, val)', 'set_output(val, abs_name)'),
+           'C19.taint'),
+    Mutant('helper-call-autoivc-through-inputs', PRB, _OUT_BLOCK,
+           _OUT_HELPER.replace('abs_names = (resolver.source(name),)', "abs_names = resolver.absnames(name, 'input')"), 'C19.endpoint'),
+    Mutant('helper-call-defer-inverted', PRB, _OUT_BLOCK, _OUT_HELPER.replace('if not set_later(abs_name):', 'if set_later(abs_name):'),
+           'C19.nodrop'),
     # ---- twins
     Twin('twin-sorted-dict', PRB, 'for sys_name in sorted(system_overrides.keys()):', 'for sys_name in sorted(system_overrides):'),
     Twin('twin-items', PRB, _FINAL, '        for sys_name, sub in sorted(system_overrides.items()):\n            sub.load_case(case)\n'),
